@@ -99,3 +99,9 @@ def _register():
 
 
 _register()
+
+
+# results of the transformations are objects too: their invariant clauses belong to this property as well
+from . import C07 as _C07, C08 as _C08, C09 as _C09  # noqa: E402
+for _m in (_C07, _C08, _C09):
+    REG.include(_m.REG, only_clauses=["*/wf/*"], exclude="*refusal*")
